@@ -3,6 +3,9 @@
 import json, subprocess, os
 ALL = ["C%02d" % i for i in range(1, 21)]
 CHECKS = {
+ "C04": dict(cat="model_checking", tech="TLA+ day-counter / year roll-over / load model on a small calendar (Weather.tla, TLC exhaustive over all coverage patterns; the as-coded variant with ignored load errors is refuted as control) + trace validation of generated runs against the generated series with the calendar kept by the successor machine",
+   text="Design level: Weather.tla explores every start day and every coverage pattern (complete, partial, missing years) of a 3-year small calendar: with strict load errors RecordOfDay and Lockstep hold; with errors ignored (the code as it is, known finding H5) TLC refutes RecordOfDay (control). Conformance: generated projects in all three layouts and four date formats (start anywhere in the start year, 1-4 years around leap boundaries, file starting before the start year, isolated sentinels in optional columns incl. 31 Dec / 1 Jan, wind below the floor, monthly correction, and negative inputs: series ending early, holes, year tails missing). The header line carries the generated series in tenths; TLC keeps the calendar with the successor machine and checks on every simulated day: counters in lock-step with the calendar, every echoed value = documented normalisation of the record of that date (exact at 1e-6), no uncovered day is ever simulated and an uncovered period never ends in success.",
+   note="Trusted: TLC + Json, the generator's rendering of the series. Echoed wind may be raw or floored. One-file-per-year layout: no sentinel on the first/last day of a file. Known finding H5 (run.go drops LoadYear/WetterK errors) is reported as KNOWN-FINDING for inputs that end early / per-year holes only.", ref="§8 C04"),
  "C02": dict(cat="model_checking", tech="TLA+ transport model with the four flow-direction cases transcribed literally, composed with the water cascade (Nitrogen.tla, TLC exhaustive; pre-fix drain case refuted as control) + kernel replay of the real Water()+nmove() on seeded states + trace validation of generated runs (two-limb N ledgers with reconstructed clamp)",
    text="Design level: Nitrogen.tla takes the fluxes of every sub-step from WaterFn!Step (only states the real Water can hand over) and checks that convection removes exactly what leaching and drain loss report, for all concentration patterns, and that dispersion telescopes; the variant without the drain term under upward flow (the code before fix c0676bb) is refuted on every run as a control. Conformance: (a) real Water()+nmove() on 4 000 (thorough 60 000) seeded states reaching all sign cases, drain layer, capillary rise, dispersion on/off; (b) generated runs (leaching depth = bottom, >= 2 layers, drains over shallow groundwater, upward flow, deposition 0-60, fertiliser/irrigation/tillage, legumes, peat). TLC checks per sub-step: change of profile N = source - uptake - leaching - drain loss + clamp (1e-7 kg N/ha, two-sided, the clamp reconstructed per layer from the routine's own arrays), clamp >= 0 and below-threshold values flag the run; per stage that nothing else touches mineral N; denitrification withdraws what it reports; the day equation with the reported counters.",
    note="Trusted: TLC + Json, exact big-float projection to 1e-9 kg limbs, probes. Domain: automatic fertilisation off, measurement days skipped, tillage within the profile; runs whose mineral N leaves 2e6 kg/ha are cut there and must have flagged themselves unstable.", ref="§8 C02"),
